@@ -48,7 +48,9 @@ Definition sorted_by {A K} (o : oracle) (site : nat) (key : A -> K) (kleb : K ->
 (* ---------------------------------------------------------------- the raw network *)
 
 Record rattr := { ra_h : N; ra_name : string; ra_eid : string }.
-Record rrecv := { rr_h : N; rr_name : string; rr_eid : string; rr_num : Z }.
+(* a receiver: node interface [rr_num] of the node [rr_h] (node id, node attribute assignments) *)
+Record rrecv := { rr_h : N; rr_name : string; rr_eid : string; rr_num : Z; rr_id : Z;
+                  rr_attrs : list rattr }.
 
 Inductive rsig :=
 | RStd (h : N) (attrs : list rattr) (name desc : string) (rel : Z) (ty : sigtype) (un : option sigunit)
@@ -94,10 +96,14 @@ Fixpoint walk_sig (o : oracle) (s : rsig) : rsig :=
       RMux h (get_attrs o at_) n d r gc gs fx (map (map (walk_sig o)) groups)
   end.
 
+Definition walk_recv (o : oracle) (r : rrecv) : rrecv :=
+  {| rr_h := rr_h r; rr_name := rr_name r; rr_eid := rr_eid r; rr_num := rr_num r; rr_id := rr_id r;
+     rr_attrs := get_attrs o (rr_attrs r) |}.
+
 (* Message.Receivers / NodeInterface.SentMessages / Bus.NodeInterfaces / Network.Buses *)
 Definition walk_msg (o : oracle) (m : rmsg) : rmsg :=
   {| rm_h := rm_h m; rm_eid := rm_eid m; rm_attrs := get_attrs o (rm_attrs m);
-     rm_recv := sorted_by o site_recv recv_key str2_leb (rm_recv m);
+     rm_recv := sorted_by o site_recv recv_key str2_leb (map (walk_recv o) (rm_recv m));
      rm_name := rm_name m; rm_desc := rm_desc m; rm_static := rm_static m; rm_canid := rm_canid m;
      rm_id := rm_id m; rm_size := rm_size m; rm_byteorder := rm_byteorder m; rm_cycle := rm_cycle m;
      rm_sigs := map (walk_sig o) (rm_sigs m) |}.
@@ -195,17 +201,24 @@ Definition sigs_of_rnet (r : rnet) : list rsig :=
   flat_map rm_sigs (flat_map rn_msgs (flat_map rb_nifs (rt_buses r))).
 Definition builders_used (r : rnet) : list (N * string) :=
   flat_map (fun b => match rb_builder b with Some x => [x] | None => [] end) (rt_buses r).
-Definition nodes_used (r : rnet) : list rnif := flat_map rb_nifs (rt_buses r).
+(* nodes: the node of every interface, then (81f8653) the node of every receiver of its messages *)
+Record rnode := { nd_h : N; nd_id : Z; nd_attrs : list rattr }.
+Definition nodes_used (r : rnet) : list rnode :=
+  flat_map (fun x =>
+      {| nd_h := rn_h x; nd_id := rn_id x; nd_attrs := rn_attrs x |}
+      :: flat_map (fun m => map (fun rc => {| nd_h := rr_h rc; nd_id := rr_id rc; nd_attrs := rr_attrs rc |})
+                             (rm_recv m)) (rn_msgs x))
+    (flat_map rb_nifs (rt_buses r)).
 
-Definition save_nodes (r : rnet) : list rnif :=
-  isort (fun a b => rn_id a <=? rn_id b) (dedup rn_h [] (nodes_used r)).
+Definition save_nodes (r : rnet) : list rnode :=
+  isort (fun a b => nd_id a <=? nd_id b) (dedup nd_h [] (nodes_used r)).
 Definition attrs_in (evs : list ev) : list rattr :=
   flat_map (fun e => match e with EAsg a => [a] | _ => [] end) evs.
 
 (* saveNetwork *)
 Definition save_skel (r : rnet) : list ev :=
   let body := flat_map save_bus (rt_buses r) in
-  let nodes := flat_map (fun x => ERef 1 (rn_h x) :: map EAsg (rn_attrs x)) (save_nodes r) in
+  let nodes := flat_map (fun x => ERef 1 (nd_h x) :: map EAsg (nd_attrs x)) (save_nodes r) in
   let n := to_net r in
   (body
    ++ map (fun x => ERef 0 (fst x))
